@@ -115,8 +115,13 @@ def gen_sched_case(rng, variant, gp=False, profile=False):
                 workers=rng.choice([1, 2, 3, 4]), steps=rng.choice([18, 30] if gp else [25, 60, 120]),
                 interleave=(not gp), other_kinds=OTHER_KINDS if not gp else [], profile=profile,
                 ties=rng.random() < 0.3, p_fail=rng.choice([0.0, 0.05, 0.15]))
+    if kind == "dehb":
+        # DEHB's suggest does not terminate after some trial failures in this snapshot
+        # (dehb_bracket_manager.trial_id_from_parent_slot loops while bracket_delta == 0): not a C11 matter
+        case["p_fail"] = 0.0
     if kind in ("fifo", "hyperband", "pbt", "msr") and not gp and rng.random() < 0.15:
         case["no_clock"] = True     # no TimeKeeper passed: the real clock must not influence suggestions / decisions
+        case["profile"] = False     # (outside the static configurations, which fix "a TimeKeeper is passed")
     return case
 
 
@@ -194,6 +199,13 @@ def judge(ctx, case, ra, rb, hashseeds, facts=None, funcmap=None):
             ctx.violation("correspondence", "c11 worker failed on a case: %s" % r["harness_error"], case=rcase,
                           failing_input=False, broken="driver drivers/c11.py (worker)")
             return
+    if any(str(r.get("error") or "").startswith("Timeout") for r in (ra, rb)):
+        # a call that does not return within the per-case limit (machine load or a non-terminating scheduler
+        # call): nothing to compare, not a reproducibility verdict
+        ctx.count(("timeout", case), nontrivial=False)
+        ctx.h("errors", "Timeout")
+        ctx.notes.append("case timed out (not judged): %s" % json.dumps(variant_sig(case)))
+        return
     key = "table" if case["kind"] == "sim" else "trace"
     for r, tw in ((ra, "A"), (rb, "B")):
         if r.get("consumed"):
